@@ -757,3 +757,284 @@ Section Run.
     exists n, sF, s'. split; [exact Hn|]. split; [exact Hst|]. split; [exact Hheap|exact Hout].
   Qed.
 End Run.
+
+(** * The result graph after the collector has been dropped *)
+
+Lemma h_get_find : forall h l o, h_get h l = Ok o -> PM.find l (cells h) = Some (true, o).
+Proof.
+  intros h l o H. unfold h_get in H. destruct (PM.find l (cells h)) as [[[|] x]|]; try discriminate H.
+  inversion H; reflexivity.
+Qed.
+
+Lemma h_get_same_find : forall h h' l, PM.find l (cells h') = PM.find l (cells h) -> h_get h' l = h_get h l.
+Proof. intros h h' l H. unfold h_get. rewrite H. reflexivity. Qed.
+
+Lemma vals_lift : forall (R Rf : loc_rel) vs vs', Forall2 (val_rel R) vs vs' ->
+  (forall a a', val_rel R a a' -> In a' vs' -> val_rel Rf a a') -> Forall2 (val_rel Rf) vs vs'.
+Proof.
+  intros R Rf vs vs' H. induction H as [|x x' r r' Hx Hr IH]; intros Hl; constructor.
+  - apply Hl; [exact Hx|left; reflexivity].
+  - apply IH. intros a a' Ha Hin. apply Hl; [exact Ha|right; exact Hin].
+Qed.
+
+(* dropping the collector releases only boxes that are not reachable from the result: the result
+   graph read in the heap after the drop is the graph the program built *)
+Lemma graph_after_drop : forall R hs hm hm2 v v',
+  graph_rel R hs hm -> val_rel R v v' ->
+  (forall l, reach hm [v'] l -> PM.find l (cells hm2) = PM.find l (cells hm)) ->
+  graph_eq hs v hm2 v'.
+Proof.
+  intros R hs hm hm2 v v' [G1 G2 G3] Hv Hsame.
+  set (Rf := fun l l' => R l l' /\ reach hm [v'] l').
+  assert (forall a a', val_rel R a a' -> (forall k, val_loc a' = Some k -> reach hm [v'] k) -> val_rel Rf a a') as Hlift.
+  { intros a a' Ha Hr. destruct Ha; constructor; split; try assumption; apply Hr; reflexivity. }
+  exists Rf. split.
+  - apply Hlift; [exact Hv|]. intros k Hk. apply (reach_root hm [v'] v' k); [left; reflexivity|exact Hk].
+  - constructor.
+    + intros l l' [Hr Hre]. destruct (G1 l l' Hr) as [o [o' [A [B C]]]]. exists o, o'.
+      split; [exact A|]. split; [rewrite (h_get_same_find hm hm2 l' (Hsame l' Hre)); exact B|].
+      destruct o; destruct o'; cbn [obj_rel] in *; try contradiction; try exact C.
+      pose proof (h_get_find _ _ _ B) as Hf.
+      assert (forall x', In x' vs0 -> forall k, val_loc x' = Some k -> reach hm [v'] k) as Hel.
+      { intros x' Hin k Hk. exact (reach_elem hm [v'] l' true vs0 x' k Hre Hf Hin Hk). }
+      apply (vals_lift R Rf _ _ C). intros a a' Ha Hin. apply Hlift; [exact Ha|].
+      intros k Hk. exact (Hel a' Hin k Hk).
+    + intros l l1 l2 [H1 _] [H2 _]. exact (G2 l l1 l2 H1 H2).
+    + intros l1 l2 l' [H1 Hre] [H2 _]. destruct (G3 l1 l2 l' H1 H2) as [E|[f Hf]]; [left; exact E|right].
+      exists f. rewrite (h_get_same_find hm hm2 l' (Hsame l' Hre)). exact Hf.
+Qed.
+
+(** * The literals of the program at run time *)
+
+Lemma lits_good : forall p bc consts, in_F2h p = true -> compile p = Ok bc -> lits_exact (lits_b p) ->
+  length consts = length (b_constants bc) ->
+  Forall (lit_good (combine (b_constants bc) consts)) (lits_b p).
+Proof.
+  intros p bc consts HF Hc Hex Hlen. destruct (compile_pool_facts p bc HF Hc) as [P V].
+  apply Forall_forall. intros c Hin. set (pl := combine (b_constants bc) consts).
+  assert (map fst pl = b_constants bc) as Hfst by (apply map_fst_combine; symmetry; exact Hlen).
+  assert (map snd pl = consts) as Hsnd by (apply map_snd_combine; symmetry; exact Hlen).
+  destruct (const_position c (b_constants bc)) as [i|] eqn:Ep; [|exfalso; exact (P c Hin Ep)].
+  pose proof (const_position_lt _ _ _ Ep) as Hlt.
+  destruct (nth_error consts i) as [v|] eqn:En; [|apply nth_error_None in En; lia].
+  assert (pool_find c pl = Some v) as Hfind by (rewrite pool_find_position, Hfst, Ep, Hsnd; exact En).
+  exists v. split; [exact Hfind|].
+  destruct (pool_find_in _ _ _ Hfind) as [c' [Hin' He]].
+  assert (c' = c) as ->; [|exact Hin'].
+  destruct c as [z|f|s|ip n].
+  - apply const_eqb_exact; [intros f; discriminate|exact He].
+  - destruct c' as [z'|f'|s'|ip' n']; try discriminate He. cbn [const_eqb] in He.
+    f_equal. apply Hex; [|exact Hin|exact He]. apply V. rewrite <- Hfst.
+    apply (in_map fst pl (KFloat f', v)) in Hin'. exact Hin'.
+  - apply const_eqb_exact; [intros f; discriminate|exact He].
+  - apply const_eqb_exact; [intros f; discriminate|exact He].
+Qed.
+
+(** * Compiler correctness for F2h *)
+
+(* Main theorem.  As for F2 the fuel of the static pass is made sufficient explicitly.  Two
+   hypotheses are new: `lits_exact` (the constant pool merges IEEE-equal float literals; a program
+   that writes both 0.0 and -0.0 - which no source text can - is outside the statement) and
+   `sem_small` (fewer than 2^60 boxes: the address space of a heap word). *)
+Theorem compile_correct_F2h : forall orc p, in_F2h p = true -> ends_expr p = true ->
+  lits_exact (lits_b p) ->
+  forall bc, compile p = Ok bc ->
+  forall fuel, (size2h_b p <= fuel)%nat -> sem_program orc fuel p <> SemFuel ->
+  sem_small orc fuel p (length (b_constants bc)) ->
+  exists budget, obs_eq_h (run_program orc bc budget) (sem_program orc fuel p).
+Proof.
+  intros orc p HF HE Hex bc Hc fuel Hsz Hnf Hsmall. unfold sem_program in *.
+  rewrite (static_accepts_F2h p bc fuel HF Hc Hsz) in *.
+  destruct p as [|s0 r].
+  - (* the empty program *)
+    vm_compute in Hc. inversion Hc; subst bc. cbn [size2h_b] in Hsz. destruct fuel as [|f]; [lia|].
+    rewrite eb_nil. exists 1%nat. cbn [obs_eq_h sem_init st_heap st_out].
+    eexists; eexists. split; [vm_compute; reflexivity|]. split; [vm_compute; reflexivity|]. split; [vm_compute; reflexivity|].
+    exists R0. split; [constructor|]. constructor; [intros l l' []|intros l l1 l2 []|intros l1 l2 l' []].
+  - assert (ends_pop (s0 :: r) = true) as Hpop by (apply ends_expr_pop; [discriminate|exact HE]).
+    set (p := s0 :: r) in *.
+    destruct (load_consts (b_constants bc) empty_heap) as [consts h0] eqn:El.
+    set (K := Z.of_nat (length (b_constants bc))).
+    set (pl := combine (b_constants bc) consts).
+    set (prog := mkProgram (b_code bc) consts).
+    set (sv0 := vm_start vm_new consts h0).
+    destruct (load_consts_pool _ _ _ _ El heap_ok_empty hi_empty_heap) as [Llen _].
+    pose proof (compile_run_F2h orc p bc consts h0 HF Hpop Hc El fuel) as Hrun. fold pl prog sv0 in Hrun.
+    pose proof (RelS_initial (b_constants bc) consts h0 El) as HR0. fold K pl sv0 in HR0.
+    assert (bounded K (exec_block orc fuel (mkD [[]] None) p VNull sem_init)) as Hbd.
+    { unfold bounded. unfold sem_small, sem_final_state in Hsmall.
+      destruct (exec_block orc fuel (mkD [[]] None) p VNull sem_init) as [v s|sg s|k s|x s|]; cbn [rstate];
+        try exact I; apply Hsmall; reflexivity. }
+    pose proof (proj2 (proj2 (sem_heval orc K pl fuel)) false p (mkD [[]] None) [] sem_init (hst_of sv0) [] R0 VNull VNull HF
+                  (lits_good p bc consts HF Hc Hex Llen)
+                  (conj eq_refl eq_refl) HR0 (fun h (H : In h []) => match H with end)
+                  (fun h y c (H : In h []) => match H with end) (Pval_null R0) Hbd) as Hsem.
+    change (map fst (@nil (text * positive))) with (@nil text) in Hsem.
+    pose proof (proj2 (proj2 (heval_nosig orc pl fuel)) p [] VNull (hst_of sv0) HF) as Hns.
+    pose proof (vm_inv_initial (b_code bc) _ consts h0 El) as Hinv0. fold prog sv0 in Hinv0.
+    destruct (exec_block orc fuel (mkD [[]] None) p VNull sem_init) as [v s2|sg s2|k s2|x s2|];
+      destruct (hstmts orc pl fuel [] p VNull (hst_of sv0)) as [v' m'|m'|m'|k' o|f' o|];
+      cbn [corr corrg hnosig] in Hsem, Hns; try contradiction; try (destruct sg as [| |rv]; contradiction).
+    + (* a value *)
+      destruct Hsem as [R' [_ [[Hv _] HR']]]. destruct Hrun as [n [sF [s' [Hn [Hst [Hheap Hout]]]]]].
+      exists (n + 1)%nat.
+      assert (run_loop orc prog (n + 1) sv0 = (Ok v', s', O)) as Hloop.
+      { rewrite (run_loop_reach orc prog n sv0 sF 1 Hn). cbn [run_loop]. rewrite Hst. reflexivity. }
+      destruct (result_survives_drop orc prog (n + 1) sv0 v' s' O Hinv0 Hloop) as [g' [hf [Ed [Hpres _]]]].
+      rewrite (run_program_obs orc bc (n + 1) consts h0 _ _ _ El Hloop). cbn [obs_eq_h o_result o_heap o_out].
+      exists v', hf. split; [reflexivity|]. split; [rewrite Ed; reflexivity|].
+      split; [rewrite Hout; symmetry; exact (RS_out _ _ _ _ _ _ _ HR')|].
+      apply (graph_after_drop R' (st_heap s2) (v_heap s') hf v v').
+      * rewrite Hheap. exact (hr_graph _ _ _ _ (RS_hr _ _ _ _ _ _ _ HR')).
+      * exact Hv.
+      * intros l Hl. exact (proj1 (Hpres l Hl)).
+    + (* an error *)
+      destruct Hsem as [-> Ho]. destruct Hrun as [n [s1 [Hn [Hst Hout]]]]. exists (n + 1)%nat.
+      assert (run_loop orc prog (n + 1) sv0 = (Err k', s1, O)) as Hloop.
+      { rewrite (run_loop_reach orc prog n sv0 s1 1 Hn). cbn [run_loop]. rewrite Hst. reflexivity. }
+      rewrite (run_program_obs orc bc (n + 1) consts h0 _ _ _ El Hloop). cbn [obs_eq_h o_result o_out].
+      split; [reflexivity|congruence].
+    + (* a fault *)
+      destruct Hsem as [-> Ho]. destruct Hrun as [n [s1 [Hn [Hst Hout]]]]. exists (n + 1)%nat.
+      assert (run_loop orc prog (n + 1) sv0 = (Fault f', s1, O)) as Hloop.
+      { rewrite (run_loop_reach orc prog n sv0 s1 1 Hn). cbn [run_loop]. rewrite Hst. reflexivity. }
+      rewrite (run_program_obs orc bc (n + 1) consts h0 _ _ _ El Hloop). cbn [obs_eq_h o_result o_out].
+      split; [reflexivity|congruence].
+Qed.
+
+Print Assumptions compile_correct_F2h.
+
+(** * Corollaries (properties C13 / C14 at source level) *)
+
+(* everything printed: same text, in the same order, also when the run ends in an error *)
+Definition sem_out (r : sem_result) : option text :=
+  match r with
+  | SemValue _ _ out | SemError _ out | SemFault _ out => Some out
+  | _ => None
+  end.
+
+Corollary print_output_order : forall orc p, in_F2h p = true -> ends_expr p = true ->
+  lits_exact (lits_b p) ->
+  forall bc, compile p = Ok bc ->
+  forall fuel, (size2h_b p <= fuel)%nat -> sem_program orc fuel p <> SemFuel ->
+  sem_small orc fuel p (length (b_constants bc)) ->
+  exists budget, sem_out (sem_program orc fuel p) = Some (o_out (run_program orc bc budget)).
+Proof.
+  intros orc p HF HE Hex bc Hc fuel Hsz Hnf Hsm.
+  destruct (compile_correct_F2h orc p HF HE Hex bc Hc fuel Hsz Hnf Hsm) as [budget H]. exists budget.
+  destruct (sem_program orc fuel p) as [k|v h out|k out|f out|]; cbn [obs_eq_h sem_out] in *; try contradiction.
+  - destruct H as [v' [hm [_ [_ [Ho _]]]]]. rewrite Ho. reflexivity.
+  - destruct H as [_ Ho]. rewrite Ho. reflexivity.
+  - destruct H as [_ Ho]. rewrite Ho. reflexivity.
+Qed.
+
+(* a builtin call appends what it prints to the output, and only print prints *)
+Lemma builtin_out_appends : forall orc m b args v m', h_builtin orc m b args = Ok (v, m') ->
+  exists t, hs_out m' = hs_out m ++ t /\ (b <> BPrint -> t = []).
+Proof.
+  intros orc m b args v m' H. unfold h_builtin in H.
+  destruct (call_builtin orc b (hs_heap m) args) as [[[w h'] t]| | |] eqn:E; try discriminate H.
+  cbn [bind fst snd] in H. inversion H; subst. exists t. split; [reflexivity|].
+  intros Hb. destruct b; try contradiction; cbn [call_builtin] in E;
+    match type of E with (do r <- ?x; Ok (r, [])) = _ => destruct x; cbn [bind] in E; inversion E; reflexivity end.
+Qed.
+
+(* the indexing rule: a[i] for a negative i counts from the back, on both sides *)
+Corollary index_rule_source : forall z len, 0 <= len -> MIN_INT <= z ->
+  (0 <= z < len -> spec_index z len = Some (Z.to_nat z) /\ norm_index z len = Ok z) /\
+  (- len <= z < 0 -> spec_index z len = Some (Z.to_nat (len + z)) /\ norm_index z len = Ok (len + z)) /\
+  (z < - len \/ len <= z -> spec_index z len = None /\ norm_index z len = Err EIndexError).
+Proof.
+  intros z len Hlen Hz.
+  assert (- WORD <= z) as Hw by (apply (int_lb_word z); cbn [int_lb]; apply Z.leb_le; exact Hz).
+  rewrite (norm_index_spec z len Hlen Hw). unfold spec_index, in_range, norm.
+  split; [|split]; intros Hr;
+    destruct (Z.leb_spec 0 z); destruct (Z.ltb_spec z len); destruct (Z.ltb_spec z 0);
+    destruct (Z.leb_spec (- len) z); cbn [andb]; try lia;
+    (split; first [reflexivity | f_equal; lia | f_equal; f_equal; lia]).
+Qed.
+
+(* ... and the two evaluators give related answers for related operands (arrays and strings,
+   negative indices, index and type errors) *)
+Corollary index_get_agrees : forall K pl holes ds R sst m base base' idx idx', RelS K pl holes ds R sst m ->
+  Pval R base base' -> Pval R idx idx' ->
+  corr K pl holes ds R (sem_index_get sst base idx) (hlift_o m (h_index_get m base' idx')).
+Proof. exact index_get_corr. Qed.
+
+(* aliasing: two names hold the same array in Sem exactly when they do on the machine (l1' is an
+   array box: every array value a program can build points to one) *)
+Corollary alias_same_on_both_sides : forall K pl holes ds R sst m i j y1 c1 y2 c2 l1 l2 l1' l2' vs,
+  RelS K pl holes ds R sst m ->
+  nth_error ds i = Some (y1, c1) -> nth_error ds j = Some (y2, c2) -> ~ In i holes -> ~ In j holes ->
+  get_cell c1 sst = VArr l1 -> get_cell c2 sst = VArr l2 ->
+  nth i (hs_gl m) VNull = VArr l1' -> nth j (hs_gl m) VNull = VArr l2' ->
+  get_arr (hs_heap m) l1' = Ok vs ->
+  (l1 = l2 <-> l1' = l2').
+Proof.
+  intros K pl holes ds R sst m i j y1 c1 y2 c2 l1 l2 l1' l2' vs HR Hi Hj Hni Hnj G1 G2 M1 M2 Harr.
+  pose proof (RS_val _ _ _ _ _ _ _ HR i y1 c1 Hi Hni) as V1. rewrite G1, M1 in V1.
+  pose proof (RS_val _ _ _ _ _ _ _ HR j y2 c2 Hj Hnj) as V2. rewrite G2, M2 in V2.
+  inversion V1 as [| | | | |a a' Ha]; subst. inversion V2 as [| | | | |b b' Hb]; subst.
+  pose proof (hr_graph _ _ _ _ (RS_hr _ _ _ _ _ _ _ HR)) as [G1' G2' G3']. split.
+  - intros ->. exact (G2' _ _ _ Ha Hb).
+  - intros ->. destruct (G3' _ _ _ Ha Hb) as [E|[f Hf]]; [exact E|].
+    apply get_arr_inv in Harr. rewrite Harr in Hf. discriminate Hf.
+Qed.
+
+(* a write through one name is seen through every other name of the same array (Sem; the machine
+   answers the same by compile_correct_F2h, and holds the same aliases by the corollary above) *)
+Corollary alias_through_variables : forall st l z v st' vs,
+  get_arr (st_heap st) l = Ok vs ->
+  sem_index_set st (VArr l) (VInt z) v = ROk v st' ->
+  sem_index_get st' (VArr l) (VInt z) = ROk v st'.
+Proof.
+  intros st l z v st' vs Hg H. unfold sem_index_set in H. rewrite Hg in H. cbn [lift_plain rbind] in H.
+  destruct (spec_index z (zlength vs)) as [n|] eqn:Es; [|discriminate H].
+  pose proof (get_arr_inv _ _ _ Hg) as Hg'. rewrite (h_set_ok _ _ _ _ Hg') in H. cbn [lift_plain rbind] in H.
+  inversion H; subst st'. clear H.
+  unfold sem_index_get. cbn [with_heap st_heap]. rewrite (get_arr_of _ _ _ (h_get_set_cell_same _ _ _)).
+  cbn [lift_plain rbind].
+  assert (zlength (replace_nth n v vs) = zlength vs) as -> by (unfold zlength; rewrite length_replace_nth; reflexivity).
+  rewrite Es.
+  assert (n < length vs)%nat as Hn.
+  { unfold spec_index in Es. unfold zlength in Es.
+    destruct ((0 <=? z) && (z <? Z.of_nat (length vs))) eqn:E1.
+    - inversion Es. apply andb_prop in E1. destruct E1 as [A B]. apply Z.leb_le in A. apply Z.ltb_lt in B. lia.
+    - destruct ((z <? 0) && (- Z.of_nat (length vs) <=? z)) eqn:E2; [|discriminate Es].
+      inversion Es. apply andb_prop in E2. destruct E2 as [A B]. apply Z.ltb_lt in A. apply Z.leb_le in B. lia. }
+  assert (nth_error (replace_nth n v vs) n = Some v) as ->.
+  { clear -Hn. revert n Hn. induction vs as [|x r IH]; intros n Hn; cbn [length] in Hn; [lia|].
+    destruct n; cbn [replace_nth nth_error]; [reflexivity|]. apply IH. lia. }
+  reflexivity.
+Qed.
+
+(* a failed write: the error is raised before anything changed - in Sem the state at the error is
+   the state before the write, in the evaluator (and on the machine: VMIndexProofs.set_failure_unchanged,
+   run_loop returns the state before the failing instruction) no new state exists, and nothing was
+   printed *)
+Corollary failed_write_leaves_sequence_unchanged : forall st base idx v k st',
+  sem_index_set st base idx v = RErr k st' -> st' = st.
+Proof.
+  intros st base idx v k st' H. unfold sem_index_set in H.
+  destruct idx; try (inversion H; reflexivity). destruct base; try (inversion H; reflexivity).
+  - destruct (get_str (st_heap st) l) as [t| | |]; cbn [lift_plain rbind] in H; try discriminate H;
+      try (inversion H; reflexivity).
+    destruct (spec_index z (zlength t)); [|inversion H; reflexivity].
+    destruct v; try (inversion H; reflexivity).
+    destruct (get_str (st_heap st) l0) as [repl| | |]; cbn [lift_plain rbind] in H; try discriminate H;
+      try (inversion H; reflexivity).
+    destruct (h_set (st_heap st) l _) as [h'| | |]; cbn [lift_plain rbind] in H; try discriminate H;
+      inversion H; reflexivity.
+  - destruct (get_arr (st_heap st) l) as [vs| | |]; cbn [lift_plain rbind] in H; try discriminate H;
+      try (inversion H; reflexivity).
+    destruct (spec_index z (zlength vs)); [|inversion H; reflexivity].
+    destruct (h_set (st_heap st) l _) as [h'| | |]; cbn [lift_plain rbind] in H; try discriminate H;
+      inversion H; reflexivity.
+Qed.
+
+Corollary failed_write_machine : forall m lhs idx v k out,
+  hlift_o m (h_index_set m lhs idx v) = HErr k out -> out = hs_out m.
+Proof.
+  intros m lhs idx v k out H. destruct (h_index_set m lhs idx v) as [[x m']| | |]; cbn [hlift_o] in H;
+    try discriminate H. inversion H; reflexivity.
+Qed.
